@@ -485,12 +485,13 @@ func c15ErrKind(err error) string {
 // ---- mutation of JSON documents ------------------------------------------------------------
 
 type c15Slot struct {
-	set func(any)
+	set   func(any)
+	inPos bool // a member of a position object ({"Offset":…,"Line":…,"Col":…})
 }
 
 // c15Slots lists a setter for every value position of the document (root first).
-func c15Slots(x any, set func(any), out *[]c15Slot) {
-	*out = append(*out, c15Slot{set: set})
+func c15Slots(x any, set func(any), inPos bool, out *[]c15Slot) {
+	*out = append(*out, c15Slot{set: set, inPos: inPos})
 	switch x := x.(type) {
 	case map[string]any:
 		keys := make([]string, 0, len(x))
@@ -498,14 +499,15 @@ func c15Slots(x any, set func(any), out *[]c15Slot) {
 			keys = append(keys, k)
 		}
 		sort.Strings(keys)
+		_, isPos := x["Offset"]
 		for _, k := range keys {
 			k := k
-			c15Slots(x[k], func(v any) { x[k] = v }, out)
+			c15Slots(x[k], func(v any) { x[k] = v }, isPos, out)
 		}
 	case []any:
 		for i := range x {
 			i := i
-			c15Slots(x[i], func(v any) { x[i] = v }, out)
+			c15Slots(x[i], func(v any) { x[i] = v }, false, out)
 		}
 	}
 }
@@ -550,7 +552,16 @@ func c15Scalar(r *Rand) any {
 func c15Mutate(r *Rand, doc any) (any, string) {
 	var slots []c15Slot
 	root := doc
-	c15Slots(doc, func(v any) { root = v }, &slots)
+	c15Slots(doc, func(v any) { root = v }, false, &slots)
+	if r.Chance(80) { // positions dominate every document: usually aim elsewhere
+		var other []c15Slot
+		for _, s := range slots {
+			if !s.inPos {
+				other = append(other, s)
+			}
+		}
+		slots = other
+	}
 	// collect containers
 	var maps []map[string]any
 	var walk func(x any)
